@@ -528,6 +528,38 @@ def check(repo):
         r6.require(bool(loads) and all(not cfg_h.can_reach(cfg_h.entry, t, avoid=loads) for t in tests), h, "connect before flag tests",
                    "%s tests the upload flags before connecting (and re-synchronising them from the server)" % hname)
 
+    # ---------------------------------------------------------------- R13.7 the loaders report the persisted state, they do not repair it
+    r7 = Rule("R13.7", "loaders report the persisted state unchanged (no 'self-healing' from the mere existence of a file)")
+    rules.append(r7)
+    for rel in (F.SRV, F.CLI):
+        svc = repo.cls(rel, "Service")
+        for mname, fi in svc.methods.items():
+            if not (mname == "__init__" or mname.startswith("_load_")):
+                continue
+            for st in ast.walk(fi.node):
+                tg = []
+                if isinstance(st, ast.Assign):
+                    tg = st.targets
+                elif isinstance(st, ast.AugAssign):
+                    tg = [st.target]
+                for t in tg:
+                    if isinstance(t, ast.Subscript) and dotted(t.value) == "self.service_meta":
+                        r7.fail_fn(fi, st, "loader rewrites the state", "%s %s.%s changes service_meta while loading: a file that merely exists (possibly truncated by a crash) "
+                                   "is taken as proof of a completed step" % (rel, svc.name, mname))
+                if isinstance(st, ast.Call) and (dotted(st.func) or "").endswith(("write_service_meta", "set_current_service_state", "_store_service_meta")) and mname != "__init__" or \
+                        (isinstance(st, ast.Call) and mname == "__init__" and (dotted(st.func) or "").endswith(("write_service_meta", "_store_service_meta"))):
+                    r7.fail_fn(fi, st, "loader persists state", "%s %s.%s writes the state file while loading" % (rel, svc.name, mname))
+            r7.ok({"loader": "%s::%s.%s" % (rel, svc.name, mname)})
+    # existence predicates are only used by the loaders' predicate, never to derive a state
+    for rel in (F.SRV, F.CLI):
+        svc = repo.cls(rel, "Service")
+        for mname, fi in svc.methods.items():
+            for c in ast.walk(fi.node):
+                if isinstance(c, ast.Call) and (dotted(c.func) or "").startswith("FileManager.") and (dotted(c.func) or "").split(".")[-1].startswith(("check_", "exists", "has_")):
+                    nm = (dotted(c.func) or "").split(".")[-1]
+                    r7.require(mname == "__init__" and nm in ("check_sid_folder_exist", "check_sid_local_file_valid"), fi, "existence test %s in %s" % (nm, mname),
+                               "%s.%s consults the existence test %s: state must come from the state file, not from which files happen to exist" % (svc.name, mname, nm), c)
+
     # state rewrites outside creation (close_service on both sides, echo handlers on the client) use write_service_meta:
     # covered by R13.3 because they go through the same function; record the call sites
     sites = 0
